@@ -1,6 +1,7 @@
 package kit
 
 import (
+	"bytes"
 	"errors"
 	"fmt"
 	"io"
@@ -27,6 +28,8 @@ var probeOnce sync.Once
 //	del:<k>            delete a response header
 //	status:<code>      WriteHeader(code)
 //	write:<n>x<c>      write n bytes of character c ("write:tok" writes the literal)
+//	wstr:<n>x<c>       the same bytes through io.WriteString (a writer's own WriteString method, if it has one)
+//	copy:<n>x<c>       the same bytes through io.Copy from a plain reader (a writer's own ReadFrom method, if it has one)
 //	flush              Flush
 //	panic              panic("probe panic")
 //	ret:<code>[:err]   return (code, error?) immediately
@@ -50,6 +53,11 @@ func RegisterProbe() {
 }
 
 type probe struct{ next httpserver.Handler }
+
+// plainReader hides every method but Read (no WriteTo), so that io.Copy uses the destination's ReadFrom.
+type plainReader struct{ r io.Reader }
+
+func (p plainReader) Read(b []byte) (int, error) { return p.r.Read(b) }
 
 // ProbePayload returns the bytes written by "write:<n>x<c>".
 func ProbePayload(spec string) []byte {
@@ -123,6 +131,12 @@ func (p probe) ServeHTTP(w http.ResponseWriter, r *http.Request) (int, error) {
 			wrote = true
 		case "write":
 			w.Write(ProbePayload(arg))
+			wrote = true
+		case "wstr":
+			io.WriteString(w, string(ProbePayload(arg)))
+			wrote = true
+		case "copy":
+			io.Copy(w, plainReader{bytes.NewReader(ProbePayload(arg))})
 			wrote = true
 		case "flush":
 			if f, ok := w.(http.Flusher); ok {
